@@ -17,19 +17,22 @@ LEVEL_TEXT = (
     "Lean theorems about the validation framework (ParallelVisitor with its skipping array, TypeInfoVisitor, "
     "TypeInfo as a table-driven stack machine, on_error with the error limit, the memoised context getters), "
     "for all trees, all lists of rules and all limits: each member of a parallel run evolves exactly as alone "
-    "(parallel_alone), errors of a rule list are a permutation of the single-rule runs (rules_union), TypeInfo "
-    "stacks are restored after every sub-traversal (typeinfo_balanced; the stack/register table is regenerated "
-    "from type_info.py and its balance re-proved by `decide`), validate(max_errors=n) = first n of the unlimited "
-    "list + the abort notice iff there are more (limit_prefix), traversal keys contain neither loc nor — for "
-    "validate() — description (generated table), context caches return what recomputation returns (memo_pure). "
+    "(parallel_alone) and exactly as the rule run directly under visit() with real SKIP/BREAK (parallel_alone_single_full, "
+    "parallel_alone_direct, parallel_alone_direct_sdl); errors of a rule list are a permutation of the single-rule runs "
+    "(rules_union, rules_union_sdl) and are reported in traversal order, ties in rule order, every rule's own sequence a "
+    "subsequence (rules_order, rules_order_full); TypeInfo stacks are restored after every sub-traversal "
+    "(typeinfo_balanced; the stack/register table is regenerated from type_info.py and its balance re-proved by `decide`); "
+    "validate(max_errors=n) = first n of the unlimited list + the abort notice iff there are more, for every n including 0 "
+    "(limit_prefix); traversal keys contain neither loc nor — for validate() — description (generated table); context "
+    "caches return what recomputation returns (memo_pure_partial, exact characterisation memo_responses). "
     "The ~40 concrete rules are tied by evaluating the property's relations directly on the implementation."
 )
 LEVEL_NOTE = (
     "Compositionality is proved for the framework; that each concrete rule is a deterministic non-editing visitor "
     "reading only document, schema, TypeInfo and the context getters is an assumption *checked* on generated "
-    "documents x rule subsets/orderings x limits (union, per-rule call sequences, reprint/ignored/description "
-    "invariance, determinism, no mutation, prefix law). visit() itself is C11's model; here it only provides the "
-    "enter/leave sequence."
+    "documents x rule subsets/orderings (incl. the empty set) x limits (incl. 0): union, per-rule call sequences alone / in parallel / "
+    "directly under visit(), reprint/ignored/description invariance, determinism, no mutation, prefix law. visit() itself is "
+    "C11's model; here it only provides the enter/leave sequence."
 )
 TECHNIQUE = "Lean 4 proofs over an executable model + generated tables (T1) + differential correspondence + metamorphic oracles on the implementation"
 TRUSTED = [
@@ -46,16 +49,17 @@ ASSUMPTIONS = [
     "rule sets range over subsets/orderings of specified_rules (resp. specified_sdl_rules); custom rules calling get_variable_usages(operation) can observe the list-extension aliasing (memo_pure_full is refuted in Lean, not a stated-clause violation)",
 ]
 EXPLANATION = (
-    "Theorems: parallel_members, parallel_alone, rules_union, rules_order_partial, typeinfo_balanced (+ tiTable_balanced / tiTable_regsReset on the "
-    "generated table, typeinfo_restored_nested), limit_prefix, limit_length, loc_blind_* (generated tables), memo_responses, memo_pure_partial, "
-    "memo_pure_full_false. Oracles on the implementation: union of single-rule runs, "
-    "per-rule call sequence alone = in parallel, message invariance under reprint / ignored characters / descriptions, "
+    "Theorems: parallel_members, parallel_alone, parallel_alone_single_full, parallel_alone_direct(_sdl), rules_union(_sdl), rules_order, "
+    "rules_order_full, rules_order_partial, typeinfo_balanced (+ tiTable_balanced / tiTable_regsReset on the generated table, "
+    "typeinfo_restored_nested), limit_prefix, limit_length, loc_blind_* (generated tables), memo_responses, memo_pure_partial, "
+    "memo_pure_full_false. Oracles on the implementation: union of single-rule runs (the empty rule set reports nothing), "
+    "per-rule call sequence alone = in parallel = directly under visit(doc, TypeInfoVisitor(TypeInfo, rule)), message invariance under reprint / ignored characters / descriptions, "
     "determinism and no mutation, prefix law for max_errors. Correspondence: scripted rules through the real "
     "validate()/validate_sdl()/visit() vs the compiled model."
 )
 
 BIG = 10**9
-LIMITS = [None, 1, 2, 5, 100]
+LIMITS = [None, 0, 1, 2, 5, 100]
 
 # --------------------------------------------------------------------------------------------------
 # T1
@@ -260,6 +264,36 @@ def _proxy(rule_cls):
     Rec.__qualname__ = rule_cls.__qualname__
     env["proxies"][rule_cls] = Rec
     return Rec
+
+
+def _direct_run(rule_cls, doc, schema, sdl, index):
+    """The rule as the visitor of visit() itself (validate()'s context, TypeInfoVisitor and key map, no ParallelVisitor)."""
+    import importlib
+
+    from graphql.language import visit
+    from graphql.utilities import TypeInfo, TypeInfoVisitor
+    from graphql.validation import SDLValidationContext, ValidationContext
+
+    env = _env()
+    P = _proxy(rule_cls)
+    P.c12_sink = []
+    P.c12_index = index
+    errors = []
+    try:
+        if sdl:
+            visit(doc, P(SDLValidationContext(doc, schema, errors.append)))
+        else:
+            V = importlib.import_module("graphql.validation.validate")
+            keys = getattr(V, "query_document_keys_to_validate", None) if env["facts"]["validate_keys"] != "<default>" else None
+            ti = TypeInfo(schema)
+            visit(doc, TypeInfoVisitor(ti, P(ValidationContext(schema, doc, ti, errors.append))), keys)
+        res = _canon(errors)
+    except Exception as e:  # noqa: BLE001
+        res = [("<CRASH>", (type(e).__name__,))]
+    log = [tuple(l) for l in P.c12_sink[0]] if len(P.c12_sink) == 1 else ("<instances>", len(P.c12_sink))
+    P.c12_sink = []
+    P.c12_index = {}
+    return res, log
 
 
 def _proxy_run(run, rule_classes, index):
@@ -477,6 +511,7 @@ def _scripted_case(doc, schema, mode, max_errors, specs):
             else:
                 visit(doc, inst)
                 out = _fmt_out(shared["logs"][:1], errs, False, None, shared["broke"], False)
+        out += "|wn 1"  # the tree of a parsed document satisfies the hypotheses of parallel_alone_direct
     except Exception as e:  # noqa: BLE001
         out = f"crash {type(e).__name__}: {e}"
     return line, out
@@ -536,6 +571,23 @@ def _check_case(case, rep, corr):
             rep.evaluations += 1
             if again != res:
                 _fail(rep, "nondeterministic-single-rule", "a single-rule run gives two different answers", {**case, "configs": [[r]]}, again[:4], res[:4], "C12 (iv) twice the same answer")
+    # (ii, direct form) the rule DIRECTLY under visit(doc, TypeInfoVisitor(TypeInfo(schema), rule)) — no
+    # ParallelVisitor, SKIP/BREAK answered to visit() itself — sees the same calls and reports the same errors
+    for r in used:
+        if _crashed(single[r]):
+            continue
+        dres, dlog = _direct_run(rulemap[r], doc, schema, sdl, index)
+        rep.evaluations += 1
+        sub = {**case, "configs": [[r]]}
+        if _crashed(dres):
+            _fail(rep, "direct-run-raises", "a rule run directly under visit() raises although validate([rule]) does not", sub, dres[-1], "no exception", "C12 parallel_alone_single")
+        elif dlog != single_logs[r]:
+            a, b = dlog, single_logs[r]
+            k = next((i for i, (x, y) in enumerate(zip(a, b)) if x != y), min(len(a), len(b)))
+            _fail(rep, "direct-call-sequence-differs", "a rule sees a different enter/leave sequence directly under visit() than inside ParallelVisitor", sub,
+                  {"first_difference_at": k, "direct": a[k : k + 2] if isinstance(a, list) else a, "in_parallel_visitor": b[k : k + 2] if isinstance(b, list) else b, "lengths": [len(a), len(b)]}, "identical sequences", "C12 parallel_alone_single")
+        elif dres != single[r]:
+            _fail(rep, "direct-errors-differ", "a rule reports different errors directly under visit() than inside ParallelVisitor", sub, dres[:4], single[r][:4], "C12 parallel_alone_single")
     any_crash = any(_crashed(v) for v in single.values())
     rep.stats["single_rule_crashes"] = rep.stats.get("single_rule_crashes", 0) + sum(1 for v in single.values() if _crashed(v))
     full_all = None
@@ -560,7 +612,7 @@ def _check_case(case, rep, corr):
             if got != want:
                 extra = sorted((got - want).elements())[:5]
                 missing = sorted((want - got).elements())[:5]
-                _fail(rep, "union-differs", "errors of the rule set are not the union of the single-rule runs", sub, {"only_in_full_run": extra, "only_in_single_runs": missing}, "equal multisets", "C12 rules_union")
+                _fail(rep, "union-differs" if cfg else "union-empty-rule-set", "errors of the rule set are not the union of the single-rule runs", sub, {"only_in_full_run": extra, "only_in_single_runs": missing}, "equal multisets", "C12 rules_union")
         # (ii) per-rule call sequences
         res2, logs = _proxy_run(lambda ps: run(ps), classes, index)
         for r in cfg:
@@ -587,7 +639,7 @@ def _check_case(case, rep, corr):
                     want_txt = f"first {n_eff} of the unlimited list + abort notice"
                     rep.stats["limit_hit"] = rep.stats.get("limit_hit", 0) + 1
                 if not ok:
-                    _fail(rep, "limit-prefix", "max_errors result is not the prefix of the unlimited list (+ one abort notice iff more)", {**sub, "limits": [n]},
+                    _fail(rep, "limit-prefix" if n != 0 else "limit-prefix-zero", "max_errors result is not the prefix of the unlimited list (+ one abort notice iff more)", {**sub, "limits": [n]},
                           {"len": len(lim), "tail": lim[-2:], "unlimited_len": len(full)}, want_txt, "C12 limit_prefix")
     # (iii) messages are invariant under reprint / ignored characters / descriptions
     if full_all is not None and not _crashed(full_all):
@@ -650,6 +702,8 @@ def _check_case(case, rep, corr):
                 mode, mx = "plain", None
             else:
                 mode = rng.choice(["ti", "ti", "ti", "tisingle", "psingle"])
+                if mode == "ti" and rng.random() < 0.08:
+                    specs = []  # the empty rule list
                 mx = rng.choice([None, None, 0, 1, 2, 5, 20]) if mode == "ti" else None
                 if mode != "ti":
                     # SKIP answered to visit() on the *root* is C11's finding F5 (IndexError); not this property's subject
@@ -758,6 +812,8 @@ def _configs(rng, order, n):
     cfgs = [list(order)]
     if n > 1:
         cfgs.append(list(reversed(order)))
+    if n > 2:
+        cfgs.append([])  # the empty rule set reports the empty union
     while len(cfgs) < n:
         r = rng.random()
         if r < 0.25:
@@ -803,7 +859,7 @@ def _cases(ctx, n_docs, n_cfg, n_scripted):
         r = random.Random(f"{ctx.seed}:{len(cases)}")
         rules = order["specified_sdl_rules"] if family == "sdl" else order["specified_rules"]
         cases.append({"family": family, "flavour": flavour, "schema": schema, "text": text, "configs": _configs(r, rules, n_cfg),
-                      "limits": LIMITS if len(cases) % 2 == 0 else r.sample(LIMITS, 3), "seed": f"{ctx.seed}:{len(cases)}", "scripted": n_scripted, **kw})
+                      "limits": LIMITS if len(cases) % 2 == 0 else [0, *r.sample(LIMITS, 3)], "seed": f"{ctx.seed}:{len(cases)}", "scripted": n_scripted, **kw})
 
     seen = set()
     for fam, si, text in _corpus_files() + CORPUS:
@@ -836,9 +892,9 @@ def _cases(ctx, n_docs, n_cfg, n_scripted):
 
 def explore(ctx) -> Report:
     if ctx.tier == "quick":
-        n_docs, n_cfg, n_scr = 360, 6, 2
+        n_docs, n_cfg, n_scr = 480, 8, 2
     else:
-        n_docs, n_cfg, n_scr = 1200, 8, 3
+        n_docs, n_cfg, n_scr = 4000, 12, 3
     if ctx.escalate and ctx.tier != "quick":
         n_docs = int(n_docs * 1.5)
     cases = _cases(ctx, n_docs, n_cfg, n_scr)
